@@ -9,7 +9,7 @@ use serde::{Deserialize, Serialize};
 use std::sync::Mutex;
 
 pub const ALPHABET: [char; 14] = ['{', '}', '(', ')', '\\', ':', '<', '>', '.', '0', '9', 'm', 'd', '%'];
-pub const WIDTH_SANITY: u128 = 4096;
+pub const WIDTH_SANITY: u128 = 262_144;
 
 fn fixed_recs() -> Vec<Rec> {
     vec![
@@ -242,7 +242,9 @@ pub struct Broken {
     pub wrap: u8,
 }
 
-pub const BREAKERS: [&str; 54] = [
+pub const BREAKERS: [&str; 58] = [
+    // a malformed DEFAULT of an MDC formatter (nested formatter, stray brace, lone backslash, three arguments)
+    "{X(k)({m})}", "{X(k)(n/a}x)}", "{mdc(k)(C:\\temp)}", "{X(k)(a)(b)}",
     "{m:99999999999999999999.3}", "{m:_<18446744073709551616.3}", "{m:3.99999999999999999999}", "{l:>99999999999999999999.99999999999999999999}", "{(x):18446744073709551616}", "{m:0.18446744073709551616}",
     "}", ")", "(", "\\x", "\\", "{nope}", "{zz9}", "{m(x)}", "{l()}", "{h}", "{D}", "{R}", "{}", "{(a)(b)}", "{d(%Y)(mars)}", "{d(%Y)()}",
     "{d(%Y)(utc)(x)}", "{X}", "{X()}", "{X(a)(b)(c)}", "{X({m})}", "{m:5", "{m:>", "{(abc", "{m:5.x}", "{m:x5}", "{m 5}", "{h(a)(b)}",
@@ -337,7 +339,8 @@ pub struct Soup {
     pub rec: Rec,
 }
 
-const TOKENS: [&str; 53] = [
+const TOKENS: [&str; 58] = [
+    "65535", "65536", "70000", "{m:65541}", "131072",
     "{", "}", "(", ")", "\\", ":", "<", ">", ".", "{{", "}}", "((", "))", "{m}", "{d}", "{d(", "{date(", "%Y", "%Q", "%", "%.3f", "%+", "%#z", "%:::z", "%-", "utc",
     "local", "{X(", "{h(", "{D(", "{R(", "{(", "{l", "{thread_id", "m", "é", "😀", "\u{0301}", "\n", "0", "9", "5", "12", "4095", "4097", "99999999999999999999999",
     "18446744073709551616", "x", "\u{663}", "\u{b2}", "\u{2460}", "\u{ff13}", "{m:",
@@ -564,7 +567,7 @@ pub fn replay(part: &str, case: serde_json::Value) -> Option<CaseResult> {
 pub fn meta() -> EvidenceMeta {
     EvidenceMeta {
         level: "exploration",
-        rule: "three sources, each under both build profiles (overflow checks on/off): (1) exhaustive: every string over the 14 syntax symbols up to the length bound; (2) broken: generated valid pattern AST (rendered by the reference) + one of 54 breaker tokens (lone special, unknown formatter, wrong arity, bad zone, unterminated formatter, malformed spec) + generated suffix: output must start with the reference rendering of the prefix and show {ERROR: after it, or encode must return Err; (3) soup: arbitrary Unicode strings, token soup incl. 20-digit widths and strftime fragments, and 1-3 character edits of valid patterns. Oracle everywhere: catch_unwind around PatternEncoder::new and encode never unwinds; output valid UTF-8. Encoding is skipped when an explicit digit run exceeds 4096 (sanity bound of the statement). A panic that the library raises and catches again by itself counts as a panic (the harness's panic hook counts them per thread). Part broken-stderr: fourteen broken and valid patterns constructed and encoded in a child process whose stderr is a pipe nobody reads. non-trivial = output holds both an error marker and other text, or a digit run >= 10 digits, or a % inside a date argument; distinct = FNV hash".into(),
+        rule: "three sources, each under both build profiles (overflow checks on/off): (1) exhaustive: every string over the 14 syntax symbols up to the length bound; (2) broken: generated valid pattern AST (rendered by the reference) + one of 58 breaker tokens (among them malformed MDC defaults) (lone special, unknown formatter, wrong arity, bad zone, unterminated formatter, malformed spec) + generated suffix: output must start with the reference rendering of the prefix and show {ERROR: after it, or encode must return Err; (3) soup: arbitrary Unicode strings, token soup incl. 20-digit widths and strftime fragments, and 1-3 character edits of valid patterns. Oracle everywhere: catch_unwind around PatternEncoder::new and encode never unwinds; output valid UTF-8. Encoding is skipped when an explicit digit run exceeds 262 144 (sanity bound; the sink refuses more than 1 MiB). A panic that the library raises and catches again by itself counts as a panic (the harness's panic hook counts them per thread). Part broken-stderr: fourteen broken and valid patterns constructed and encoded in a child process whose stderr is a pipe nobody reads. non-trivial = output holds both an error marker and other text, or a digit run >= 10 digits, or a % inside a date argument; distinct = FNV hash".into(),
         assumptions: vec!["panics are observed through catch_unwind (aborts would kill the worker: exit 2)".into()],
         mutants_caught: vec![],
     }
